@@ -1,5 +1,7 @@
-import IpamVerif.AllocLemmas
+import IpamVerif.AllocOrder
 import IpamVerif.System
+import IpamVerif.Props.C02
+import IpamVerif.Props.C04
 /-!
 # C09 — pod CIDRs never overlap the configured service ranges
 
@@ -136,5 +138,230 @@ theorem allocate_keeps_covered {a a' : Alloc} (ha : a.WF) {svc : Cidr} (hcov : C
       exact hcov i c q hget hq k hk hnd
   · rw [Alloc.get?_set_ne _ _ _ _ hij] at hj
     exact hcov j d q hj hq k hk hnd
+
+
+/-- pools only grew (associations and flags may differ) -/
+def PoolsLe (a a' : Alloc) : Prop :=
+  a'.ccs.length = a.ccs.length ∧ ∀ j c, a.get? j = some c → ∃ c', a'.get? j = some c' ∧ ∀ g, OptPoolLe (c.pool g) (c'.pool g)
+
+theorem PoolsLe.refl (a : Alloc) : PoolsLe a a := ⟨rfl, fun _ c h => ⟨c, h, fun _ => OptPoolLe.refl _⟩⟩
+theorem PoolsLe.trans {a b c : Alloc} (h1 : PoolsLe a b) (h2 : PoolsLe b c) : PoolsLe a c := by
+  refine ⟨h2.1.trans h1.1, ?_⟩
+  intro j x hx
+  obtain ⟨y, hy, hxy⟩ := h1.2 j x hx
+  obtain ⟨z, hz, hyz⟩ := h2.2 j y hy
+  exact ⟨z, hz, fun g => OptPoolLe.trans (hxy g) (hyz g)⟩
+theorem PoolsLe.of_le {a a' : Alloc} (h : AllocLe a a') : PoolsLe a a' :=
+  ⟨h.1, fun j c hc => let ⟨c', h1, h2⟩ := h.2 j c hc; ⟨c', h1, h2.2.2.2.2.2⟩⟩
+
+theorem get?_some_of_lt (a : Alloc) (j : Nat) (h : j < a.ccs.length) : ∃ c, a.get? j = some c := by
+  unfold Alloc.get?; exact ⟨a.ccs[j], List.getElem?_eq_getElem h⟩
+theorem lt_of_get?_some (a : Alloc) (j : Nat) (c : CC) (h : a.get? j = some c) : j < a.ccs.length := by
+  unfold Alloc.get? at h
+  false_or_by_contra; rename_i hn
+  rw [List.getElem?_eq_none (by omega)] at h; cases h
+
+/-- the cover of a service range survives any growth of the pools -/
+theorem Covered_of_poolsLe {a a' : Alloc} {svc : Cidr} (h : PoolsLe a a') (hc : Covered a svc) : Covered a' svc := by
+  intro j c' p' hj hp k hk hnd
+  have hlt := lt_of_get?_some a' j c' hj
+  rw [h.1] at hlt
+  obtain ⟨c, hcj⟩ := get?_some_of_lt a j hlt
+  obtain ⟨c'', hj'', hle⟩ := h.2 j c hcj
+  rw [hj] at hj''; cases hj''
+  have := hle svc.fam
+  rw [hp] at this
+  cases hq : c.pool svc.fam with
+  | none => rw [hq] at this; exact this.elim
+  | some p =>
+    rw [hq] at this
+    have hmax : p'.max = p.max := by unfold Pool.max; rw [this.1]
+    exact this.2.2 k (hc j c p hcj hq k (hmax ▸ hk) (this.1 ▸ hnd))
+
+/-- whatever one entry serves avoids a covered service range -/
+theorem tryEntry_avoids_service {a a' : Alloc} (ha : a.WF) {svc : Cidr} (hsvc : svc.WF) (hcov : Covered a svc) {i : Nat} {c : CC}
+    {cidrs : List Cidr} (hget : a.get? i = some c) (h : a.tryEntry i = (a', some cidrs)) :
+    ∀ b ∈ cidrs, goOverlap b svc = false := by
+  -- a block of family `f` served from entry `i` of a covered, well-formed state
+  have one : ∀ (s s' : Alloc) (d : CC) (f : Fam) (p : Pool) (blk : Cidr), s.WF → Covered s svc → s.get? i = some d →
+      d.pool f = some p → s.allocate i f = (s', some blk) → goOverlap blk svc = false := by
+    intro s s' d f p blk hs hcs hd hp hal
+    obtain ⟨k, hk, hb, _, hbw, hbf⟩ := allocate_ok hd hp (hs i d hd f p hp) hal
+    by_cases hf : svc.fam = f
+    · subst hf
+      have hdis := allocation_avoids_service hs hcs hd hp hal
+      cases ho : goOverlap blk svc with
+      | false => rfl
+      | true => exact absurd hdis ((goOverlap_iff hbw hsvc hbf).mp ho)
+    · exact goOverlap_diff_fam (by rw [hbf]; exact fun e => hf e.symm)
+  unfold Alloc.tryEntry at h
+  simp only [hget] at h
+  cases h4 : c.v4 with
+  | none =>
+    rw [h4] at h
+    simp only at h
+    cases h6 : c.v6 with
+    | none =>
+      rw [h6] at h
+      simp only [Prod.mk.injEq, Option.some.injEq] at h
+      intro b hb; rw [← h.2] at hb; cases hb
+    | some p6 =>
+      rw [h6] at h
+      simp only at h
+      cases hal : a.allocate i .v6 with
+      | mk a2 r2 =>
+        rw [hal] at h
+        cases r2 with
+        | none => simp at h
+        | some b6 =>
+          simp only [List.nil_append, Prod.mk.injEq, Option.some.injEq] at h
+          intro b hb
+          rw [← h.2] at hb
+          simp only [List.mem_singleton] at hb
+          subst hb
+          exact one a a2 c .v6 p6 b ha hcov hget (by simp [CC.pool, h6]) hal
+  | some p4 =>
+    rw [h4] at h
+    simp only at h
+    have hp4 : c.pool .v4 = some p4 := by simp [CC.pool, h4]
+    cases hal : a.allocate i .v4 with
+    | mk a1 r1 =>
+      rw [hal] at h
+      cases r1 with
+      | none => simp at h
+      | some b4 =>
+        simp only at h
+        have hb4 := one a a1 c .v4 p4 b4 ha hcov hget hp4 hal
+        cases h6 : c.v6 with
+        | none =>
+          rw [h6] at h
+          simp only [Prod.mk.injEq, Option.some.injEq] at h
+          intro b hb
+          rw [← h.2] at hb
+          simp only [List.mem_singleton] at hb
+          subst hb; exact hb4
+        | some p6 =>
+          rw [h6] at h
+          simp only at h
+          have hle1 := allocate_le ha hget hp4 hal
+          obtain ⟨_, x4, p4', _, _, _, _, _, _, ha1⟩ := (allocate_spec hget hp4 (ha i c hget .v4 p4 hp4)).2 a1 b4 hal
+          have hget1 : a1.get? i = some (c.setPool .v4 p4') := by rw [ha1]; exact Alloc.get?_set_self _ _ _ _ hget
+          have hp6 : (c.setPool .v4 p4').pool .v6 = some p6 := by
+            rw [CC.pool_setPool_other _ _ _ _ (by decide)]; simp [CC.pool, h6]
+          cases hal2 : a1.allocate i .v6 with
+          | mk a2 r2 =>
+            rw [hal2] at h
+            cases r2 with
+            | none => simp at h
+            | some b6 =>
+              simp only [Prod.mk.injEq, Option.some.injEq] at h
+              have hb6 := one a1 a2 _ .v6 p6 b6 hle1.2.1 (Covered_of_poolsLe (PoolsLe.of_le hle1.1) hcov) hget1 hp6 hal2
+              intro b hb
+              rw [← h.2] at hb
+              simp only [List.cons_append, List.nil_append, List.mem_cons, List.mem_singleton, List.not_mem_nil, or_false] at hb
+              rcases hb with rfl | rfl
+              · exact hb4
+              · exact hb6
+
+/-- … and so does whatever `prioritizedCIDRs` reserves -/
+theorem prioritized_avoids_service {a : Alloc} (ha : a.WF) {svc : Cidr} (hsvc : svc.WF) (hcov : Covered a svc) :
+    ∀ (l : List Nat) {a' : Alloc} {cidrs : List Cidr} {i : Nat}, a.prioritized l = (a', some (cidrs, i)) →
+      ∀ b ∈ cidrs, goOverlap b svc = false := by
+  intro l
+  induction l generalizing a with
+  | nil => intro a' cidrs i h; simp [Alloc.prioritized] at h
+  | cons j rest ih =>
+    intro a' cidrs i h
+    unfold Alloc.prioritized at h
+    cases ht : a.tryEntry j with
+    | mk a1 r1 =>
+      rw [ht] at h
+      cases hg : a.get? j with
+      | none =>
+        unfold Alloc.tryEntry at ht
+        simp only [hg, Prod.mk.injEq] at ht
+        obtain ⟨rfl, rfl⟩ := ht
+        simp only at h
+        exact ih ha hcov h
+      | some c =>
+        cases r1 with
+        | some cs =>
+          simp only [Prod.mk.injEq, Option.some.injEq] at h
+          obtain ⟨rfl, rfl, rfl⟩ := h
+          exact tryEntry_avoids_service ha hsvc hcov hg ht
+        | none =>
+          simp only at h
+          have := tryEntry_le ha hg ht
+          exact ih this.2.1 (Covered_of_poolsLe (PoolsLe.of_le this.1) hcov) h
+
+
+/-! ### the controller level -/
+
+/-- every configured service range is covered -/
+def CoveredAll (s : Sys) : Prop := ∀ svc ∈ s.svcs, svc.WF ∧ Covered s.alloc svc
+
+theorem updateCIDRsAllocation_svcs (s : Sys) (name : String) (cidrs : List Cidr) (i : Nat) (ws : List WOut) :
+    (updateCIDRsAllocation s name cidrs i ws).1.svcs = s.svcs := by
+  unfold updateCIDRsAllocation
+  split
+  · rfl
+  · split
+    · rfl
+    · split
+      · split <;> rfl
+      · simp only; split <;> rfl
+
+theorem allocateOrOccupy_svcs (s : Sys) (n : NodeObj) (r : Bool) (ws : List WOut) :
+    (allocateOrOccupy s n r ws).1.svcs = s.svcs := by
+  unfold allocateOrOccupy
+  split
+  · split <;> rfl
+  · split
+    · rfl
+    · split
+      · rfl
+      · rw [updateCIDRsAllocation_svcs]
+        split
+        · split <;> rfl
+        · rfl
+
+/-- **no PATCH of a node item meets a configured service range** — for every ClusterCIDR mapped, whatever the
+relative sizes of service range, ClusterCIDR range and per-node block, whatever the write outcomes -/
+theorem item_patches_avoid_service (s : Sys) (hwf : s.alloc.WF) (hcov : CoveredAll s) (n : NodeObj) (refresh : Bool)
+    (ws : List WOut) :
+    ∀ p ∈ (allocateOrOccupy s n refresh ws).2.patches, ∀ b ∈ p.2.1, ∀ svc ∈ s.svcs, goOverlap b svc = false := by
+  intro p hp b hb svc hsvc
+  have hne : (allocateOrOccupy s n refresh ws).2.patches ≠ [] := fun h => by rw [h] at hp; cases hp
+  obtain ⟨al, cidrs, i, hpr, hall⟩ := C02.patch_comes_from_one_entry s n refresh ws hne
+  have := (hall p hp).2
+  rw [this] at hb
+  exact prioritized_avoids_service hwf (hcov svc hsvc).1 (hcov svc hsvc).2 _ hpr b hb
+
+/-- **an allocation item keeps every service range covered** (used sets only grow or are restored) -/
+theorem item_keeps_covered (s : Sys) (hwf : s.alloc.WF) (hcov : CoveredAll s) (n : NodeObj) (refresh : Bool)
+    (ws : List WOut) (hn : n.hasCidrs = false) : CoveredAll (allocateOrOccupy s n refresh ws).1 := by
+  intro svc hsvc
+  rw [allocateOrOccupy_svcs] at hsvc
+  refine ⟨(hcov svc hsvc).1, ?_⟩
+  rcases C04.item_keeps_only_justified_reservations s hwf n refresh ws hn with h | ⟨al, cidrs, i, hpr, _, h⟩
+  · exact Covered_of_poolsLe (PoolsLe.of_le h.1) (hcov svc hsvc).2
+  · have hle := (C04.attempt_only_grows hwf _ _ hpr).1
+    have hcal := Covered_of_poolsLe (PoolsLe.of_le hle) (hcov svc hsvc).2
+    rcases h with h | ⟨c, hc, h⟩
+    · rw [h]; exact hcal
+    · rw [h]
+      -- recording the association touches no pool
+      apply Covered_of_poolsLe _ hcal
+      refine ⟨by simp, ?_⟩
+      intro j d hd
+      by_cases hij : i = j
+      · subst hij
+        rw [hc] at hd; cases hd
+        refine ⟨_, Alloc.get?_set_self _ _ _ _ hc, ?_⟩
+        intro g
+        have : (c.addAssoc n.name).pool g = c.pool g := by
+          unfold CC.addAssoc; split <;> rfl
+        rw [this]; exact OptPoolLe.refl _
+      · exact ⟨d, by rw [Alloc.get?_set_ne _ _ _ _ hij]; exact hd, fun g => OptPoolLe.refl _⟩
 
 end Ipam.C09
